@@ -1,6 +1,6 @@
 SPECIFICATION Spec
-CONSTANTS MaxBr = 2 MaxN = 3 CopyMode = "none"
+CONSTANTS MaxBr = 2 MaxN = 2 CopyMode = "none"
   BufSizes <- BufAll
-  Templates <- AllTemplates
+  Templates <- FewTemplates
 INVARIANT Isolated
 CHECK_DEADLOCK FALSE
